@@ -563,6 +563,14 @@ impl State {
                         self.fail("impl_model", format!("{src:?}: the builder model predicts another tree"), case, json!({"tree": enc_tree(&got)}));
                     }
                 }
+                // Display of the tree (prefix notation with the wrapper nodes printing nothing)
+                if case.get("disp").is_some() {
+                    let shown = format!("{t}");
+                    let want = text_of(&case["disp"]);
+                    if shown != want {
+                        self.fail("impl_model", format!("{src:?}: Display gives {shown:?}, the model {want:?}"), case, json!({"display": shown}));
+                    }
+                }
             },
             (Err(e), false) => {
                 let got = enc_error(e);
